@@ -15,7 +15,7 @@ DIR=$(grep -o -i -E 'copy (it )?(in)?to[: ]+`?[a-z0-9_/.-]+' "$DEMO" | head -1 |
 [ -z "$DIR" ] && DIR=$(grep -m1 -o -E '(generator|cli)[a-z0-9_/]*' "$DEMO" | head -1 | sed 's#/$##')
 [ -d "$WT/$DIR" ] || { echo "$NAME: demo dir '$DIR' not found"; exit 2; }
 PKGNAME=$(grep -m1 '^package ' "$DEMO" | awk '{print $2}')
-run_demo(){ cp "$DEMO" "$WT/$DIR/zz_demo_test.go"; (cd "$WT/$DIR" && go test -vet=off -count=1 -run 'Demo' . >/tmp/vseed_$NAME.$1.log 2>&1); rc=$?; rm -f "$WT/$DIR/zz_demo_test.go"; return $rc; }
+run_demo(){ cp "$DEMO" "$WT/$DIR/zz_demo_test.go"; (cd "$WT/$DIR" && go test -vet=off -count=1 -run "${DEMO_RUN:-Demo}" . >/tmp/vseed_$NAME.$1.log 2>&1); rc=$?; rm -f "$WT/$DIR/zz_demo_test.go"; return $rc; }
 run_demo clean; CLEAN=$?
 git apply "$S/patch.diff" || { echo "$NAME: patch does not apply"; exit 2; }
 go build ./... >/tmp/vseed_$NAME.build.log 2>&1; BUILD=$?
